@@ -60,3 +60,100 @@ PROPS["C18"] = {
     "thorough": {"stages": [{"kind": "replay"}, {"kind": "rc", "procs": 16, "cases": 300000, "maxlen": 120},
                             {"kind": "fuzz", "workers": 16, "seconds": 150, "maxlen": 120}]},
 }
+
+PROPS["C17"] = {
+    "source": "c17_cookie.cc",
+    "level": "exploration",
+    "rule": ("choice-stream decoded by construction into cookies (token names, cookie-octet values incl. '=' and empty, every subset of Path/Domain/"
+             "Max-Age {0,1,INT_MAX,uniform}/Expires (any second 1678..2262)/Secure/HttpOnly, 0-4 extension attributes incl. the labelled class of "
+             "names that begin with a built-in attribute name) checked by write->parse->compare->write, by hand-serialised text with shuffled "
+             "attribute order / name case / spacing, Cookie headers of 0-8 pairs (repeated names, equal and different values) into a jar via "
+             "addFromRaw and add, and mutated cookie strings (byte edits, truncation after = ; and attribute names, absurd Max-Age / Expires). "
+             "Non-trivial = >=3 attributes or >=2 extension attributes, a jar with a repeated name or >=3 pairs, any mutated string. Distinct = hash of the text."),
+    "engine": "rapidcheck+libFuzzer",
+    "technique": "property-based testing (rapidcheck) and libFuzzer: generated-cookie round trip compared field by field, jar contents vs the generated pair set, exactly-once iteration, parse-or-std::exception for mutants under ASan/UBSan with a guard-page buffer",
+    "level_text": "Generated-input search whose oracle is the generated cookie / pair list (independent of the parser). Exploration only.",
+    "level_note": "Trusts the harness's generators and comparison, ASan/UBSan; negative Max-Age and attribute values containing ';' are outside the stated domain and not generated.",
+    "assumptions": ["cookie text placed flush against a PROT_NONE page makes any read past (ptr,len) fault"],
+    "quick": {"stages": [{"kind": "replay"}, {"kind": "rc", "procs": 8, "cases": 15000, "maxlen": 220}]},
+    "thorough": {"stages": [{"kind": "replay"}, {"kind": "rc", "procs": 16, "cases": 150000, "maxlen": 220},
+                            {"kind": "fuzz", "workers": 16, "seconds": 150, "maxlen": 220}]},
+}
+
+PROPS["C16"] = {
+    "source": "c16_headers.cc",
+    "level": "exploration",
+    "rule": ("choice-stream decoded by construction into (a) one typed header value over the API-representable range - Cache-Control (1-6 of the twelve "
+             "named directives, delta incl. 0 and 2^31..2^62), Connection, Content-/Transfer-Encoding, Content-Length (0..2^64-1 with boundaries), "
+             "Content-Type (constructed and parsed), Authorization, Date (any second 1678..2262, also sub-second), Host (name/IPv4/[IPv6], three "
+             "constructors), Location, Server, User-Agent, Access-Control-*, Expect - checked write->Header::parse->compare->write and write->request "
+             "through RequestParser->tryGet<H>->compare; (b) a request with 1-12 header lines (registered and unknown names in random capitalisation, "
+             "duplicates, values over VCHAR/SP/HTAB/obs-text incl. empty, 0-3 spaces after the colon) and lookups under three capitalisations. "
+             "Non-trivial = list with >=2 elements / boundary value / Date / Host without port or IPv6 / every lookup case; distinct = hash of the written text or message."),
+    "engine": "rapidcheck+libFuzzer",
+    "technique": "property-based testing (rapidcheck) and libFuzzer: generated-value round trip by two routes (Header::parse and through the request parser) and a first-occurrence / any-capitalisation lookup model",
+    "level_text": "Generated-input search whose oracle is the generated value and the generated header list. Exploration only.",
+    "level_note": "Accept (no writer) and Allow (reader is a no-op) are outside 'has both a reader and a writer'; multi-token Server is compared on the joined text; has()/tryGet() are only required for registered names (they index typed headers by design).",
+    "assumptions": ["the harness's own expectation of the documented space-stripping after the colon"],
+    "quick": {"stages": [{"kind": "replay"}, {"kind": "rc", "procs": 8, "cases": 12000, "maxlen": 400}]},
+    "thorough": {"stages": [{"kind": "replay"}, {"kind": "rc", "procs": 16, "cases": 120000, "maxlen": 400},
+                            {"kind": "fuzz", "workers": 16, "seconds": 150, "maxlen": 400}]},
+}
+
+PROPS["C01"] = {
+    "source": "c01_segmentation.cc",
+    "level": "exploration",
+    "rule": ("choice-stream decoded by construction into an HTTP message AST (request line: 9 methods, /-separated unreserved/%xx segments, 0-4 query pairs incl. empty key/value and "
+             "trailing &; or status line; 0-10 headers: typed headers with values from their grammars, Cookie / Set-Cookie with attributes, unknown token names with "
+             "VCHAR/SP/HTAB/obs-text values, duplicates, 0-3 spaces after the colon, random name case; body none | Content-Length n (boundary sizes) | chunked 0-6 chunks at hex-length "
+             "boundaries, arbitrary octets) serialised by the harness's own writer; one third get 1-3 near-well-formed mutations (byte edits, CRLF->LF/CR, bad chunk size / Content-Length / "
+             "version / method / status, missing colon, CL+TE, garbage typed header, NUL/high byte, lone CR, truncation). Each message is delivered under ALL n-1 single cuts, byte-by-byte, "
+             "and 4 generated multi-cut sets. Non-trivial = message with a body or >=3 headers (every such message has cuts inside tokens, between CR and LF and inside chunk framing because "
+             "single cuts are exhaustive); distinct = hash of the wire bytes. oracle_subchecks counts the prefix / feed comparisons made."),
+    "engine": "rapidcheck+libFuzzer",
+    "technique": "property-based testing (rapidcheck) and libFuzzer: metamorphic prefix-consistency (incremental vs fresh one-shot parser) under exhaustive single cuts + byte-wise + sampled multi-cuts, outcome-independence over read boundaries, and an absolute AST oracle for completion and content",
+    "level_text": "Generated messages x exhaustive single cuts and byte-by-byte delivery per message, sampled multi-cut sets; the AST oracle is independent of the parser. Exploration: messages are sampled, the 2^(n-1) segmentations are covered exhaustively only for the single-cut and all-cut members.",
+    "level_note": "Pipelining (two messages in one read) is outside the domain; which error code a malformed message gets is not judged, only that it is the same under every segmentation; no parse() call after Done/error (callers reset).",
+    "assumptions": ["a hang is detected by a 10 s watchdog on work that takes microseconds, and re-run 3x before it is reported"],
+    "quick": {"stages": [{"kind": "replay"}, {"kind": "rc", "procs": 8, "cases": 1200, "maxlen": 900}]},
+    "thorough": {"stages": [{"kind": "replay"}, {"kind": "rc", "procs": 16, "cases": 12000, "maxlen": 1400},
+                            {"kind": "fuzz", "workers": 16, "seconds": 240, "maxlen": 1400}]},
+}
+
+PROPS["C03"] = {
+    "source": "c03_safety.cc",
+    "level": "exploration",
+    "rule": ("three decoders into one oracle: (a) structure-aware - 1-3 generated HTTP messages (C01 generator), 70% of them with 1-3 near-well-formed mutations (overlong/signed/hex numbers in "
+             "Content-Length, chunk sizes, status; missing/doubled separators; lone CR; NUL and high bytes; truncation; garbage values for every typed header), back to back; (b) byte-level - the "
+             "raw choice stream as wire bytes; both delivered as a connection in a generated segmentation (whole, byte-by-byte, sparse or dense cuts) to a request or response parser with a "
+             "generated size limit (16..16384), reset as Http::Handler::onInput / the client do; (c) every registered header's parse(), Cookie, CookieJar, MediaType (guard-page buffer), "
+             "Address, Port, Base64Decoder on mutated seeds or random text. Oracle: ASan+container annotations, UBSan, asserts, watchdog, live-heap and largest-allocation bound 64*limit+1MiB "
+             "via the sanitizer allocator hooks, only std::exception subclasses escape. Non-trivial = >=2 segments and (mutated, or reached Done/error, or raw bytes); value-parser cases all count. "
+             "Distinct = hash of (bytes, limit, cut count)."),
+    "engine": "libFuzzer+rapidcheck",
+    "technique": "coverage-guided fuzzing (libFuzzer, ASan+UBSan+container annotations) and rapidcheck on one case function with structure-aware and byte-level decoders; oracle = sanitizers + termination watchdog + allocator-hook memory bound + exception-type check",
+    "level_text": "Generated/fuzzed byte sequences x segmentations; the oracle asserts safety, termination and the memory bound only, so it cannot be fooled by what the right answer is. Exploration only.",
+    "level_note": "Server-level liveness (a second connection keeps being answered) is exercised by the socket-level checks C08/C14, not here. ASan does not intercept every libc routine (hence the guard-page buffers).",
+    "assumptions": ["ASan/UBSan see every memory error in instrumented code; uninstrumented libc reads past a buffer are caught only where the buffer ends at the guard page"],
+    "quick": {"stages": [{"kind": "replay"}, {"kind": "rc", "procs": 8, "cases": 12000, "maxlen": 1200}]},
+    "thorough": {"stages": [{"kind": "replay"}, {"kind": "rc", "procs": 8, "cases": 60000, "maxlen": 2000},
+                            {"kind": "fuzz", "workers": 16, "seconds": 360, "maxlen": 4096}]},
+}
+
+PROPS["C04"] = {
+    "source": "c04_independence.cc",
+    "level": "exploration",
+    "rule": ("choice-stream decoded by construction into a history of 2-6 messages on one connection (requests, or in the response variant responses; bodyless / Content-Length / chunked; "
+             "each in its own generated segmentation), each delivered completely or abandoned by an error: connection size limit placed inside a body (413 path), a later chunk-size line made "
+             "invalid, both Content-Length and Transfer-Encoding, or one near-well-formed mutation. The reused parser is driven with the callers' reset discipline; each element is also given "
+             "to a fresh parser in the same segmentation and outcomes are compared after every feed. Non-trivial = some non-last element has a body in progress or a Cookie/Set-Cookie header "
+             "and the next element has a different framing kind; distinct = hash of the history and limit."),
+    "engine": "rapidcheck+libFuzzer",
+    "technique": "property-based testing (rapidcheck) and libFuzzer over generated message histories: differential oracle reused-parser vs fresh-parser after every feed (stateful, whole history shrinks as one value)",
+    "level_text": "Generated histories with a differential oracle (same element, same segmentation, fresh parser). Exploration only.",
+    "level_note": "The harness replays the reset discipline of Http::Handler::onInput and of the client's handleResponsePacket/handleError by hand (documented in the harness); pipelined requests are outside the domain. The socket-level confirmation is part of C15/C14.",
+    "assumptions": ["the hand-written reset discipline in the harness matches the real callers (re-read when src/common/http.cc or src/client/client.cc change)"],
+    "quick": {"stages": [{"kind": "replay"}, {"kind": "rc", "procs": 8, "cases": 8000, "maxlen": 1600}]},
+    "thorough": {"stages": [{"kind": "replay"}, {"kind": "rc", "procs": 16, "cases": 80000, "maxlen": 2400},
+                            {"kind": "fuzz", "workers": 16, "seconds": 240, "maxlen": 2400}]},
+}
